@@ -247,6 +247,11 @@ pub enum Op {
     Restart {
         format: Format,
     },
+    /// save without reloading (CSV and JSON with stand-off files): the store lives on, its changed
+    /// flags are cleared, and a later restart must find every later change in the files
+    Checkpoint {
+        format: Format,
+    },
 }
 
 impl Op {
@@ -271,6 +276,7 @@ impl Op {
             Op::StripAnnotationIds => "strip_annotation_ids",
             Op::StripDataIds => "strip_data_ids",
             Op::Reindex => "reindex",
+            Op::Checkpoint { .. } => "checkpoint",
             Op::Restart { format } => match format {
                 Format::JsonInline => "restart_json_inline",
                 Format::JsonInclude => "restart_json_include",
